@@ -52,7 +52,11 @@ pub fn run_mode(env: &mut Env, c04_mode: bool) -> Outcome {
     env.cover.push(("layout", cfg.layout as u64));
     let world = World::new(ctxrc.clone(), params.clone(), net);
     world.server.borrow_mut().packing = packing;
-    let nla_res = if cfg.nla { Some(crate::scen::install_nla(&world, &cfg)) } else { None };
+    // C04 only: a server that (legally, like pre-Vista ones) sends no MsvAvTimestamp. The client may refuse it, but
+    // whatever token it emits must still be well formed.
+    let no_timestamp = c04_mode && cfg.nla && ctxrc.borrow_mut().chance("server_without_timestamp", 1, 8);
+    let nla_res = if cfg.nla { Some(crate::scen::install_nla_custom(&world, &cfg, |n| { if no_timestamp { n.challenge_cfg.av_pairs.retain(|(id, _)| *id != 7); } })) } else { None };
+    if no_timestamp { ctxrc.borrow_mut().probe("challenge_without_timestamp"); }
     let mut s = match Session::connect(world, &cfg) {
         Ok(s) => s,
         Err(o) => return o,
@@ -61,6 +65,12 @@ pub fn run_mode(env: &mut Env, c04_mode: bool) -> Outcome {
     if let Err(k) = &s.connect_result {
         if c04_mode {
             if let Some(o) = crate::scen::session::c04_violation(&s.world.server.borrow()) { return o; }
+            if let Some(r) = &nla_res {
+                let r = r.borrow();
+                if let Some(e) = r.strict_errors.first() { return viol("c04/strict-parse", e, format!("strict parser rejected a CredSSP/NTLM token: {}", e)); }
+                if let Some(Err(e)) = &r.auth_verdict { if e.starts_with("field") || e.starts_with("temp") { return viol("c04/ntlm-authenticate", e.split(':').next().unwrap_or("?"), format!("AUTHENTICATE token rejected: {}", e)); } }
+            }
+            if no_timestamp { ctxrc.borrow_mut().nontrivial = true; }
             // connect failures are C03's business
             return Outcome::Pass;
         }
@@ -83,7 +93,16 @@ pub fn run_mode(env: &mut Env, c04_mode: bool) -> Outcome {
         {
             let mut srv = s.world.server.borrow_mut();
             srv.phase = Phase::Activation;
-            srv.send_deactivate_all();
+            if ctxrc.borrow_mut().chance("coalesced_deactivate", 1, 3) {
+                // a server may pack the deactivate-all behind (or in front of) another PDU of the same payload
+                let sid = srv.current_share_id;
+                let other = crate::refsrv::build::share_data_raw(&srv.p, sid, 0x2f, &crate::refsrv::build::set_error_info_payload(0));
+                let dea = crate::refsrv::build::deactivate_all_raw(&srv.p, sid);
+                if ctxrc.borrow_mut().chance("deactivate_last", 1, 2) { srv.send_coalesced("error-info+deactivate-all", &[other, dea]); } else { srv.send_coalesced("deactivate-all+error-info", &[dea, other]); }
+                ctxrc.borrow_mut().probe("coalesced_deactivate_all");
+            } else {
+                srv.send_deactivate_all();
+            }
             srv.send_demand_active(new_id);
             srv.flush();
         }
